@@ -192,6 +192,8 @@ Holds(s, f) == (\E j \in 1..Len(s.held) : s.held[j].from = "fd" /\ s.held[j].ud 
 Settle(s) == LET u == [f \in Keys |-> IF s.ufd[f] = "closing" /\ ~Holds(s, f) THEN "closed" ELSE s.ufd[f]]
              IN [s EXCEPT !.ufd = u, !.rdy = {f \in s.rdy : u[f] # "closed"}, !.hup = {f \in s.hup : u[f] # "closed"}]
 DropDue(due, m) == {d \in due : d[1] # m}
+StillPending(s, e) == IF e[2] = "tmr" THEN <<e[1], e[3]>> \in s.due ELSE IF e[2] \in {"path", "task"} THEN e \in s.xdue ELSE TRUE
+InBatch(s, m, k, key) == \E i \in 1..Len(s.stack) : s.stack[i].k = "batch" /\ \E j \in 1..Len(s.stack[i].b) : s.stack[i].b[j] = <<m, k, key>>
 \* tasks.  A task source registered on a RUNNING module (or present when its module is started / resumed) gets a thread that runs
 \* the user's function (trun); when the function returns the thread notifies the loop (xdue) and the event is delivered once
 \* (the source is one-shot).  The thread uses its source until it has notified: before a started task's source leaves the poll
@@ -308,7 +310,9 @@ Step(s) ==
                                  \* a message that came through a one-shot subscription removes that subscription (by its own
                                  \* pattern, which for a regular expression differs from the message's topic)
                                  ELSE PushEvt(IF msg.os THEN [s1 EXCEPT !.mod[x].subs = {q \in @ : q.pat # msg.ud}] ELSE s1, x, msg)
-                    ELSE IF ~HasSrc(r, x, e[2], e[3]) THEN Push(r, [f EXCEPT !.b = Tail(f.b)])
+                    \* the source was deregistered earlier in this batch (a source registered since under the same key is another
+                    \* source: what was pending in the old one's descriptor went with it)
+                    ELSE IF ~HasSrc(r, x, e[2], e[3]) \/ ~StillPending(r, e) THEN Push(r, [f EXCEPT !.b = Tail(f.b)])
                     ELSE LET src == SrcOf(r, x, e[2], e[3])
                              \* a one-shot source fires once and is then no longer registered (an auto-close descriptor is closed
                              \* when its event is released; modelled at once); an expired timer is consumed
@@ -543,6 +547,7 @@ SrcRegister(m, k, key, o) ==
     /\ (k = "fd" => \A x \in Mods \ {m} : ~HasSrc(S, x, "fd", key))       \* (precondition: one owner per user descriptor)
     /\ (k = "fd" => ~Holds(S, key))                                       \* (modelling bound: no event of an earlier registration of it is still referenced)
     /\ (k = "sgn" => \A x \in Mods \ {m} : ~HasSrc(S, x, "sgn", key))      \* (precondition: one owner per signal - the kernel hands a signal to one reader)
+    /\ (k \in {"sgn", "pid"} => ~InBatch(S, m, k, key))                     \* (modelling bound: not registered again while an event of its previous registration waits in the current batch)
     /\ IF ModRefused(m) THEN Refuse(NEG)
        ELSE IF HasSrc(S, m, k, key) THEN Rated(m, Ret(S, EEXIST))                 \* (the token is taken before the lookup)
        ELSE Rated(m, [S EXCEPT !.mod[m].src = @ \cup {[k |-> k, key |-> key, os |-> (o.os \/ k \in {"task", "thr"}), ac |-> o.ac]},
